@@ -138,14 +138,24 @@ def fresh_eval(args):
     sys.setrecursionlimit(3000)
     out = {}
     b = make(gi, mode)
-    for text in (reversed(texts) if rev else texts):
+    if rev is True:
+        order = list(reversed(texts))
+    elif rev is False:
+        order = list(texts)
+    elif rev[0] == "first":          # one input first (e.g. a call from another start rule), then the others
+        order = [rev[1]] + [t for t in texts if t != rev[1]]
+    else:                             # ("shuffle", k): a seeded permutation
+        order = list(texts)
+        random.Random(rev[1]).shuffle(order)
+    for text in order:
         out[(gi, mode, text)] = call(b, mode, text)
     return rev, out
 
 
 def run_history(args):
     """One seeded history in this (long-lived, already used) process."""
-    seed, length = args
+    seed, length = args[:2]
+    focus = args[2] if len(args) > 2 else None      # restrict the history to these grammars (focused histories)
     rng = random.Random(seed)
     objs = []
     problems = []
@@ -155,7 +165,7 @@ def run_history(args):
     for step in range(length):
         op = rng.choice(["new", "new", "parse", "parse", "parse", "generate", "fail"])
         if op == "new" or not objs:
-            gi = rng.randrange(len(GRAMMARS))
+            gi = rng.choice(focus) if focus else rng.randrange(len(GRAMMARS))
             mode = rng.choice(MODES)
             objs.append((gi, mode, make(gi, mode)))
         elif op == "generate":
@@ -226,7 +236,11 @@ def check(tier: str, seed: int):
     ctx = mp.get_context("fork")
     observed_all = []
     with ctx.Pool(NCPU) as pool:
-        for s, observed, problems in pool.imap_unordered(run_history, [(seed * 10000 + i, length) for i in range(nhist)]):
+        # besides the histories over the whole pool: for every grammar, histories over that grammar and its neighbour
+        # only (many calls on few objects, from every start rule), so that the pool can grow without thinning them out
+        n = len(GRAMMARS)
+        focused = [(seed * 10000 + 5000 + 4 * gi + j, 40, [gi, (gi + 1) % n]) for gi in range(n) for j in range(4)]
+        for s, observed, problems in pool.imap_unordered(run_history, [(seed * 10000 + i, length) for i in range(nhist)] + focused):
             for p in problems:
                 if p.get("monitor"):
                     res.tie_breaks.append(p)
@@ -234,25 +248,39 @@ def check(tier: str, seed: int):
                     res.violations.append({"what": p["what"], "replay": p})
             observed_all.extend((s, *o) for o in observed)
     # baseline: every distinct (grammar, mode, text) in a fresh interpreter process
-    keys = sorted({(gi, mode, text) for _s, gi, mode, text, _r, _st in observed_all})
+    # ... and, whatever the histories happened to call, every input of the pool on every grammar in every mode (the two
+    # opposite orders in two fresh processes expose a result that depends on an earlier call on the same object)
+    keys = sorted({(gi, mode, text) for _s, gi, mode, text, _r, _st in observed_all}
+                  | {(gi, mode, text) for gi in range(len(GRAMMARS)) for mode in MODES for text in INPUTS})
     groups: dict = {}
     for gi, mode, text in keys:
         groups.setdefault((gi, mode), []).append(text)
     spawn = mp.get_context("spawn")
     fresh = {}
     fresh_rev = {}
-    jobs = [(gi, mode, texts, rev) for (gi, mode), texts in groups.items() for rev in (False, True)]
+    # orders per (grammar, mode): forward, reverse, every input addressed to another start rule first, two shuffles
+    special = [t for t in INPUTS if t.startswith("\x01")]
+    orders = [False, True] + [("first", t) for t in special] + [("shuffle", seed * 7 + k) for k in range(2)]
+    jobs = [(gi, mode, texts, rev) for (gi, mode), texts in groups.items() for rev in orders]
+    others: dict = {}
     with spawn.Pool(NCPU, maxtasksperchild=1) as pool:
         for rev, d in pool.imap_unordered(fresh_eval, jobs, chunksize=1):
-            (fresh_rev if rev else fresh).update(d)
+            if rev is False:
+                fresh.update(d)
+            else:
+                for key, got in d.items():
+                    others.setdefault(key, []).append((rev, got))
     for key, want in fresh.items():
-        if fresh_rev.get(key) != want:
-            gi, mode, text = key
-            res.violations.append({
-                "what": f"parse result depends on earlier parse() calls on the same object: grammar {gi} mode {mode} "
-                        f"input {text!r} (fresh process, inputs parsed in two different orders)",
-                "replay": {"grammar": GRAMMARS[gi], "mode": mode, "text": text, "forward": str(want)[:300],
-                           "reverse": str(fresh_rev.get(key))[:300]}})
+        for rev, got in others.get(key, []):
+            if got != want:
+                gi, mode, text = key
+                fresh_rev[key] = got
+                res.violations.append({
+                    "what": f"parse result depends on earlier parse() calls on the same object: grammar {gi} mode {mode} "
+                            f"input {text!r} (fresh processes, the same inputs parsed in different orders: {rev!r})",
+                    "replay": {"grammar": GRAMMARS[gi], "mode": mode, "text": text, "forward": str(want)[:300],
+                               "other_order": repr(rev), "other": str(got)[:300]}})
+                break
     for s, gi, mode, text, r, step in observed_all:
         want = fresh[(gi, mode, text)]
         if r != want:
